@@ -663,6 +663,105 @@ type fragOpts struct {
 	viaExtract bool // the InitProtectData comes from ExtractInitProtectData on the encoded+decoded protected init
 	optTrun    bool // Fragment.EncOptimize = OptimizeTrun (tfhd/trun are rewritten at encode time)
 	init       []byte // init segment to protect (nil: the test asset of the codec)
+	sig        sigOpts // where sample size / duration / flags are signalled (search only; zero value: all per sample in trun)
+}
+
+// sigOpts: where a fragment carries sample size / duration / flags: 0 per sample in trun, 1 tfhd default, 2 nowhere in
+// the fragment (ONLY the trex default of the init segment); flags modes 1/2 use first-sample-flags for the sync sample.
+// on: the init segment carries a non-trivial trex (the wanted default where a mode is 2, a DIFFERENT decoy value where
+// the fragment itself signals the field: a reader that prefers the trex over tfhd / trun is then wrong too).
+type sigOpts struct {
+	on               bool
+	size, dur, flags int
+}
+
+const (
+	sigTfhdDur    = 1001
+	sigTrexDur    = 1024
+	sigFlags      = 0x01010000
+	sigFirstFlags = 0x02000000
+	decoySize     = 17
+	decoyDur      = 512
+	decoyFlags    = 0x00010000
+)
+
+// wantDur / wantFlags: the duration / flags sample i of a fragment built by buildFragment has, however signalled.
+func wantDur(i int, sg sigOpts) uint32 {
+	switch sg.dur {
+	case 1:
+		return sigTfhdDur
+	case 2:
+		return sigTrexDur
+	}
+	return 1000 + uint32(i%3)
+}
+
+func wantFlags(i int) uint32 {
+	if i == 0 {
+		return sigFirstFlags
+	}
+	return sigFlags
+}
+
+// trexFor: the trex defaults (size, duration, flags) of the init segment a fragment with signalling sg is read against.
+func trexFor(sg sigOpts, commonSize int) (size, dur, flags uint32) {
+	size, dur, flags = decoySize, decoyDur, decoyFlags
+	if sg.size == 2 {
+		size = uint32(commonSize)
+	}
+	if sg.dur == 2 {
+		dur = sigTrexDur
+	}
+	if sg.flags == 2 {
+		flags = sigFlags
+	}
+	return
+}
+
+// initWithTrex: the init segment base with the given trex defaults, re-encoded. Built BEFORE InitProtect: InitProtect,
+// ExtractInitProtectData, EncryptFragment (ipd.Trex) and the decoder of the written file all see the same trex.
+func initWithTrex(base []byte, size, dur, flags uint32) []byte {
+	f, err := mp4.DecodeFile(bytes.NewReader(base))
+	must(err)
+	trex := f.Init.Moov.Mvex.Trex
+	trex.DefaultSampleSize, trex.DefaultSampleDuration, trex.DefaultSampleFlags = size, dur, flags
+	var b bytes.Buffer
+	must(f.Init.Encode(&b))
+	return b.Bytes()
+}
+
+// applySignalling rewrites the tfhd / trun flags of an API-built fragment (all fields per sample in trun) to the
+// signalling sg (what an external packager writes against the init's trex). Sizes must be constant for size modes 1/2.
+func applySignalling(frag *mp4.Fragment, sg sigOpts) {
+	traf := frag.Moof.Traf
+	tfhd, trun := traf.Tfhd, traf.Trun
+	if len(trun.Samples) == 0 {
+		return
+	}
+	switch sg.size {
+	case 1:
+		tfhd.Flags |= 0x10
+		tfhd.DefaultSampleSize = trun.Samples[0].Size
+		trun.Flags &^= mp4.TrunSampleSizePresentFlag
+	case 2:
+		trun.Flags &^= mp4.TrunSampleSizePresentFlag
+	}
+	switch sg.dur {
+	case 1:
+		tfhd.Flags |= 0x08
+		tfhd.DefaultSampleDuration = sigTfhdDur
+		trun.Flags &^= mp4.TrunSampleDurationPresentFlag
+	case 2:
+		trun.Flags &^= mp4.TrunSampleDurationPresentFlag
+	}
+	if sg.flags != 0 {
+		trun.Flags &^= mp4.TrunSampleFlagsPresentFlag
+		trun.SetFirstSampleFlags(sigFirstFlags)
+		if sg.flags == 1 {
+			tfhd.Flags |= 0x20
+			tfhd.DefaultSampleFlags = sigFlags
+		}
+	}
 }
 
 type fragResult struct {
@@ -701,17 +800,14 @@ func buildFragment(trackID uint32, samples [][]byte, o fragOpts, r *hx.Rng) *mp4
 	}
 	dt := uint64(90000)
 	for i, s := range samples {
-		fl := uint32(0x01010000)
-		if i == 0 {
-			fl = 0x02000000
-		}
 		frag.AddFullSample(mp4.FullSample{
-			Sample:     mp4.Sample{Flags: fl, Dur: 1000 + uint32(i%3), Size: uint32(len(s)), CompositionTimeOffset: int32((i % 4) * 500)},
+			Sample:     mp4.Sample{Flags: wantFlags(i), Dur: wantDur(i, o.sig), Size: uint32(len(s)), CompositionTimeOffset: int32((i % 4) * 500)},
 			DecodeTime: dt,
 			Data:       append([]byte{}, s...),
 		})
-		dt += uint64(1000 + i%3)
+		dt += uint64(wantDur(i, o.sig))
 	}
+	applySignalling(frag, o.sig)
 	traf := frag.Moof.Traf
 	for i := 0; i < o.extraTraf; i++ {
 		switch (i + int(trackID)) % 3 {
@@ -1484,6 +1580,7 @@ func addBE(iv []byte, n uint64) []byte {
 
 func search(e *env, seed uint64, n int, big int) {
 	r := hx.NewRng(seed ^ 0x5ea7c07)
+	rs := hx.NewRng(seed ^ 0x51c07c) // signalling choices: their own stream (the other draws stay what they were)
 	for i := 0; i < n; i++ {
 		codec := byte(r.Pick('a', 'a', 'h', 'u'))
 		scheme := []string{"cenc", "cbcs"}[r.Intn(2)]
@@ -1629,6 +1726,50 @@ func search(e *env, seed uint64, n int, big int) {
 		if g != nil {
 			o.init = g.init
 		}
+		if !o.optTrun && rs.Intn(5) < 2 {
+			// sample size / duration / flags signalled like an external packager does: per sample in trun, as tfhd
+			// defaults, or ONLY in the trex of the init segment (constant-size frames in a compact CMAF layout); the init
+			// with that trex is built here, before InitProtect, and is the one every later step reads the fragment against
+			sg := sigOpts{on: true, size: rs.Intn(3), dur: rs.Intn(3), flags: rs.Intn(3)}
+			if rs.Intn(3) == 0 {
+				sg.size = 2
+			}
+			if sg.size != 0 { // constant size: audio frames of the size of the first, video copies of the first access unit
+				for j := 1; j < ns; j++ {
+					if codec == 'u' {
+						samples[j] = rs.Bytes(len(samples[0]), nil)
+						continue
+					}
+					nl := make([][]byte, len(naluLists[0]))
+					for k, nn := range naluLists[0] {
+						nl[k] = append([]byte{}, nn...)
+					}
+					if len(nl) > 0 && len(nl[len(nl)-1]) > 400 { // slice data far behind any header
+						last := nl[len(nl)-1]
+						last[len(last)-1] ^= byte(1 + rs.Intn(255))
+					}
+					naluLists[j] = nl
+					samples[j] = frame(nl)
+					if hdrLists != nil {
+						hdrLists[j] = append([]int{}, hdrLists[0]...)
+					}
+				}
+			}
+			base := o.init
+			if base == nil {
+				base = e.initFor(codec)
+			}
+			tsz, tdur, tfl := trexFor(sg, len(samples[0]))
+			o.init = initWithTrex(base, tsz, tdur, tfl)
+			o.sig = sg
+			sigFrags++
+			if sg.size == 2 {
+				sigTrexSize++
+			}
+			if sg.size == 1 || sg.dur == 1 || sg.flags == 1 {
+				sigTfhd++
+			}
+		}
 		fr := e.runFragment(codec, scheme, key, ivIn, samples, o, r)
 		evals++
 		wit := fmt.Sprintf("codec=%c scheme=%s key=%s iv=%s opts=%+v samples=%s", codec, scheme, hx.Hex(key), hx.Hex(ivIn), o, samplesField(samples))
@@ -1674,13 +1815,16 @@ func search(e *env, seed uint64, n int, big int) {
 	fmt.Fprintf(out, "NOTE\tfragments_with_empty_nal_units\t%d\n", emptyNalSamples)
 	fmt.Fprintf(out, "NOTE\tsamples_read_through_trun_offset\t%d\n", rawReads)
 	fmt.Fprintf(out, "NOTE\tsamples_with_clear_run_at_65535_boundary\t%d\n", boundaryRuns)
+	fmt.Fprintf(out, "NOTE\tfragments_with_nontrivial_trex\t%d\n", sigFrags)
+	fmt.Fprintf(out, "NOTE\tfragments_with_sample_size_only_in_trex\t%d\n", sigTrexSize)
+	fmt.Fprintf(out, "NOTE\tfragments_with_tfhd_defaults\t%d\n", sigTfhd)
 	fmt.Fprintf(out, "NOTE\tiv_across_fragments\tEncryptFragment has no IV state across fragments: callers (cmd/mp4ff-encrypt) start every fragment from the same IV, so with one key counter blocks repeat ACROSS fragments; the property speaks about one fragment - not alarmed\n")
 	fmt.Fprintf(out, "EVALS\t%d\n", evals)
 	out.Flush()
 }
 
 // checkFragment evaluates the clauses of C07 on one encrypted fragment, after a full encode/decode cycle.
-var maskChecked, synthFrags, benignSamples, emptyNalSamples, rawReads, boundaryRuns int
+var maskChecked, synthFrags, benignSamples, emptyNalSamples, rawReads, boundaryRuns, sigFrags, sigTrexSize, sigTfhd int
 
 func checkFragment(e *env, fr fragResult, prefix []fragResult, codec byte, scheme string, key, ivIn []byte, samples [][]byte, naluLists [][][]byte, hdrLists [][]int, wit string) {
 	// encode init + fragment, decode again: the observation point is the encoded file
@@ -1802,7 +1946,19 @@ func checkFragment(e *env, fr fragResult, prefix []fragResult, codec byte, schem
 		}
 	}
 	// --- per-sample clauses
-	encFs, err := dfrag.GetFullSamples(nil)
+	// read against the trex of the init segment as written and decoded (the one a player has)
+	var decTrex *mp4.TrexBox
+	if dec.Init != nil && dec.Init.Moov != nil && dec.Init.Moov.Mvex != nil {
+		decTrex = dec.Init.Moov.Mvex.Trex
+	}
+	if fr.opts.sig.on {
+		wsz, wdur, wfl := trexFor(fr.opts.sig, len(samples[0]))
+		if decTrex == nil || decTrex.DefaultSampleSize != wsz || decTrex.DefaultSampleDuration != wdur || decTrex.DefaultSampleFlags != wfl {
+			fail("mp4.InitProtect", "trex-changed", wit, "the trex defaults of the protected init are not those of the clear init")
+			return
+		}
+	}
+	encFs, err := dfrag.GetFullSamples(decTrex)
 	if err != nil || len(encFs) != nsmp {
 		fail("mp4.Fragment.GetFullSamples", "samples-after-encrypt", wit, "sample list changed by encryption")
 		return
@@ -1964,7 +2120,7 @@ func checkFragment(e *env, fr fragResult, prefix []fragResult, codec byte, schem
 	_ = totalBlocks
 	// everything else in the fragment is byte-identical to the clear input: compare with the clear fragment
 	// encoded the same way, outside moof-internal protection boxes
-	checkRestUnchanged(e, fr, dfrag, samples, wit)
+	checkRestUnchanged(e, fr, dfrag, decTrex, samples, wit)
 	if len(prefix) == 0 && fr.frag.EncOptimize&mp4.OptimizeTrun == 0 {
 		checkBoxDiff(e, fr, fr.opts, samples, sencMasks, wit)
 	}
@@ -2092,21 +2248,76 @@ func classOf(p string, err error) string {
 	return "ok"
 }
 
-// checkRestUnchanged: trun sample table, tfdt, tfhd and the non-protection boxes equal those of the clear fragment.
-func checkRestUnchanged(e *env, fr fragResult, dfrag *mp4.Fragment, samples [][]byte, wit string) {
+// checkRestUnchanged: the sample table (size, duration, flags, composition offset of every sample, resolved HERE from
+// trun / tfhd / the decoded init's trex, not by the library), the way it is signalled (trun and tfhd flag words, tfhd
+// defaults, first-sample-flags) and tfdt equal those of the clear fragment.
+func checkRestUnchanged(e *env, fr fragResult, dfrag *mp4.Fragment, trex *mp4.TrexBox, samples [][]byte, wit string) {
 	traf := dfrag.Moof.Traf
-	trun := traf.Trun
+	trun, tfhd := traf.Trun, traf.Tfhd
+	sg := fr.opts.sig
 	if int(trun.SampleCount()) != len(samples) {
 		fail("mp4.EncryptFragment", "trun-changed", wit, "sample count")
 		return
 	}
-	for i, s := range trun.Samples {
-		wantFl := uint32(0x01010000)
-		if i == 0 {
-			wantFl = 0x02000000
+	if fr.frag.EncOptimize&mp4.OptimizeTrun == 0 {
+		wantTrun := mp4.TrunDataOffsetPresentFlag | mp4.TrunSampleCompositionTimeOffsetPresentFlag
+		wantTfhd := uint32(0)
+		if sg.size == 0 {
+			wantTrun |= mp4.TrunSampleSizePresentFlag
 		}
-		if s.Size != uint32(len(samples[i])) || s.Dur != 1000+uint32(i%3) || s.CompositionTimeOffset != int32((i%4)*500) || s.Flags != wantFl {
-			fail("mp4.EncryptFragment", "trun-changed", wit, fmt.Sprintf("sample %d metadata differs from the clear input", i))
+		if sg.dur == 0 {
+			wantTrun |= mp4.TrunSampleDurationPresentFlag
+		}
+		if sg.flags == 0 {
+			wantTrun |= mp4.TrunSampleFlagsPresentFlag
+		} else {
+			wantTrun |= mp4.TrunFirstSampleFlagsPresentFlag
+		}
+		if sg.size == 1 {
+			wantTfhd |= 0x10
+		}
+		if sg.dur == 1 {
+			wantTfhd |= 0x08
+		}
+		if sg.flags == 1 {
+			wantTfhd |= 0x20
+		}
+		if trun.Flags&0xf05 != wantTrun || tfhd.Flags&0x38 != wantTfhd {
+			fail("mp4.EncryptFragment", "signalling-changed", wit, fmt.Sprintf("trun flags %#x (clear input %#x), tfhd default flags %#x (clear input %#x)",
+				trun.Flags&0xf05, wantTrun, tfhd.Flags&0x38, wantTfhd))
+			return
+		}
+	}
+	var dSize, dDur, dFlags uint32
+	if trex != nil {
+		dSize, dDur, dFlags = trex.DefaultSampleSize, trex.DefaultSampleDuration, trex.DefaultSampleFlags
+	}
+	if tfhd.HasDefaultSampleSize() {
+		dSize = tfhd.DefaultSampleSize
+	}
+	if tfhd.HasDefaultSampleDuration() {
+		dDur = tfhd.DefaultSampleDuration
+	}
+	if tfhd.HasDefaultSampleFlags() {
+		dFlags = tfhd.DefaultSampleFlags
+	}
+	first, hasFirst := trun.FirstSampleFlags()
+	for i, s := range trun.Samples {
+		size, dur, fl := dSize, dDur, dFlags
+		if trun.HasSampleSize() {
+			size = s.Size
+		}
+		if trun.HasSampleDuration() {
+			dur = s.Dur
+		}
+		if trun.HasSampleFlags() {
+			fl = s.Flags
+		} else if i == 0 && hasFirst {
+			fl = first
+		}
+		if size != uint32(len(samples[i])) || dur != wantDur(i, sg) || s.CompositionTimeOffset != int32((i%4)*500) || fl != wantFlags(i) {
+			fail("mp4.EncryptFragment", "trun-changed", wit, fmt.Sprintf("sample %d metadata (size %d dur %d flags %#x cto %d) differs from the clear input (size %d dur %d flags %#x)",
+				i, size, dur, fl, s.CompositionTimeOffset, len(samples[i]), wantDur(i, sg), wantFlags(i)))
 			return
 		}
 	}
